@@ -37,6 +37,16 @@ func (v *verifyingReader) Read(offset int64, key string) (string, bool) {
 	return "", false
 }
 
+type c12Surv struct {
+	si     *index.SlimIndex
+	sparse bool
+	keys   []string
+	want   []string
+}
+
+// one survivor per worker context (cases of a worker run sequentially)
+var c12Survivor = map[*Ctx]*c12Surv{}
+
 func runC12(ctx *Ctx, idx int) {
 	r := NewRNG(caseSeed(ctx.Seed, "C12", ctx.Tier, idx))
 	scale := 0
@@ -160,6 +170,44 @@ func runC12(ctx *Ctx, idx int) {
 	if pv != nil {
 		viol("panic", curq, map[string]interface{}{"panic": fmt.Sprint(pv), "stack": stack})
 	}
+	// the index of the previous case is still alive: it must answer as before
+	// now that another index has been built
+	if prev, ok := c12Survivor[ctx]; ok && prev != nil {
+		curq = ""
+		pv, stack := try(func() {
+			for i, k := range prev.keys {
+				curq = k
+				var got string
+				var found bool
+				if prev.sparse {
+					got, found = prev.si.RangeGet(k)
+				} else {
+					got, found = prev.si.Get(k)
+				}
+				if !found || got != prev.want[i] {
+					viol("earlier-index-changed", k, map[string]interface{}{"what": "an index that answered correctly before no longer does after another index was built",
+						"found": found, "observed": got, "expected": prev.want[i], "earlier_keys_hex": hexKeys(prev.keys, 20)})
+					return
+				}
+			}
+		})
+		if pv != nil {
+			viol("earlier-index-changed", curq, map[string]interface{}{"panic": fmt.Sprint(pv), "stack": stack})
+		}
+		ctx.Count("survivor_rechecks", 1)
+	}
+	{
+		sv := &c12Surv{si: si, sparse: sparse}
+		step := 1
+		if n > 300 {
+			step = n / 300
+		}
+		for i := 0; i < n; i += step {
+			sv.keys = append(sv.keys, keys[i])
+			sv.want = append(sv.want, fmt.Sprintf("rec-%d", i))
+		}
+		c12Survivor[ctx] = sv
+	}
 	ctx.Count("queries:indexed", nHit)
 	ctx.Count("queries:absent", nMiss)
 	ctx.Count("reader_reads", rd.reads)
@@ -208,7 +256,7 @@ func genAdversarial(r *RNG, scale int) KeySet {
 	if scale == 1 {
 		maxN = 30000
 	}
-	switch r.Intn(6) {
+	switch r.Intn(7) {
 	case 0: // binary caterpillar
 		return KeySet{"adv:caterpillar", genDeep(r, r.Range(10, min(maxN, 1500)))}
 	case 1: // every inner node has a long step: binary tree with long edges
@@ -250,6 +298,10 @@ func genAdversarial(r *RNG, scale int) KeySet {
 		return KeySet{"adv:distinct-bitmaps", sortUniq(out)}
 	case 4:
 		return KeySet{"adv:long", genLong(r, 16384)}
+	case 5:
+		// few keys, every node the same wide nibble bitmap: the short-node
+		// table must pay for itself
+		return KeySet{"adv:decimal", genDecimal(r, 400)}
 	}
 	return genKeySet(r, scale)
 }
@@ -584,7 +636,7 @@ func runC19(ctx *Ctx, idx int) {
 func init() {
 	register(&CheckDef{
 		ID: "C12", Level: "exploration",
-		Rule: "case = (record set from the key families, strictly increasing offsets; even cases one offset per key, odd cases blocks of 1..64 adjacent keys sharing a block offset) + Q(K); oracle: through a DataReader that returns a record only if the stored key equals the query, Get (dense) / RangeGet (sparse) returns the record iff the query is indexed; non-trivial = at least 2 records; distinct by hash of keys and mode",
+		Rule: "case = (record set from the key families, strictly increasing offsets; even cases one offset per key, odd cases blocks of 1..64 adjacent keys sharing a block offset) + Q(K); oracle: through a DataReader that returns a record only if the stored key equals the query, Get (dense) / RangeGet (sparse) returns the record iff the query is indexed; the index of the previous case is kept alive and re-read after the next one has been built; non-trivial = at least 2 records; distinct by hash of keys and mode",
 		NumCases: func(tier string) int {
 			if tier == "thorough" {
 				return 30000
@@ -593,7 +645,7 @@ func init() {
 		},
 		Run:           runC12,
 		MinNontrivial: func(tier string) int { return 500 },
-		Gates:         shapeGates("cases:sparse", "cases:dense", "queries:indexed", "queries:absent", "reader_reads"),
+		Gates:         shapeGates("cases:sparse", "cases:dense", "queries:indexed", "queries:absent", "reader_reads", "survivor_rechecks"),
 		Assumptions:   []string{"the verifying reader in harness/chk_misc.go models 'a data reader that verifies the record key'"},
 	})
 	register(&CheckDef{
@@ -609,7 +661,7 @@ func init() {
 		MinNontrivial: func(tier string) int { return 300 },
 		Gates: func(tier string, m *Merged) []string {
 			var missed []string
-			for _, g := range []string{"prefixed_pairs", "family:adv:caterpillar", "family:adv:big-caterpillar", "family:adv:long-steps", "family:adv:distinct-bitmaps", "family:adv:fanout-11", "family:adv:fanout-2", "family:adv:fanout-256"} {
+			for _, g := range []string{"prefixed_pairs", "family:adv:caterpillar", "family:adv:big-caterpillar", "family:adv:decimal", "family:adv:long-steps", "family:adv:distinct-bitmaps", "family:adv:fanout-11", "family:adv:fanout-2", "family:adv:fanout-256"} {
 				if m.C(g) == 0 {
 					missed = append(missed, g)
 				}
